@@ -183,6 +183,188 @@ func mapSharedWithUnknownIntf(a, b *vdev, managed map[string]bool) bool {
 	return false
 }
 
+// sharedMapNames: crypto maps of the device bound to an interface unknown to Netspoc AND to a managed interface (or named by the target).
+func sharedMapNames(a, b *vdev, managed map[string]bool) map[string]bool {
+	m, u := map[string]bool{}, map[string]bool{}
+	for _, x := range a.Blocks {
+		w := x.words()
+		if k, _ := headKind(w); k == "cbind" {
+			if managed[w[4]] {
+				m[w[2]] = true
+			} else {
+				u[w[2]] = true
+			}
+		}
+	}
+	out := map[string]bool{}
+	for n := range u {
+		if m[n] || b.exists(ref{"cmap", n}) {
+			out[n] = true
+		}
+	}
+	return out
+}
+
+// dupPeerMaps: crypto maps of the target with two entries for the same peer.
+func dupPeerMaps(b *vdev) map[string]bool {
+	out := map[string]bool{}
+	for _, m := range b.kindObjects("cmap") {
+		seen := map[string]bool{}
+		for _, x := range b.blocksOf(m) {
+			w := x.words()
+			if k := cryptoAttrKey(w); k == "set peer" || k == "ipsec-isakmp dynamic" {
+				p := strings.Join(w[4:], " ")
+				if seen[p] {
+					out[m.name] = true
+				}
+				seen[p] = true
+			}
+		}
+	}
+	return out
+}
+
+// culprits: which object a failure is about. Every attribute is computed from the INPUT (the two configurations) and from the
+// place of the failure (the rejected command, the commands of a further script, the lines in which two views differ) —
+// never from a case-wide flag.
+type culprits struct {
+	shared, dup map[string]bool   // crypto map names (input)
+	bindOf      map[string]string // interface -> crypto map bound to it (device and target)
+	devBind     map[string]string // interface -> crypto map of the device
+	tgtBind     map[string]string // interface -> crypto map of the target
+}
+
+func (cu *culprits) ofMap(name string) string {
+	switch {
+	case cu.shared[name]:
+		return "crypto_map_shared_with_unknown_interface"
+	case cu.dup[name]:
+		return "crypto_map_with_duplicate_peer_in_target"
+	}
+	// the device's map under another name, bound to the interface of such a target map
+	for intf, dn := range cu.devBind {
+		if dn == name && cu.dup[cu.tgtBind[intf]] {
+			return "crypto_map_with_duplicate_peer_in_target"
+		}
+	}
+	return "other"
+}
+
+// ofCmds: every command is `[no ]crypto map M …` for maps of ONE culprit class (object definitions that only serve such
+// entries — ACLs, transform-sets created for them — are not judged here: they come with the entry).
+func (cu *culprits) ofCmds(cmds []string) string {
+	class := ""
+	for _, c := range cmds {
+		w := strings.Fields(strings.TrimPrefix(c, "no "))
+		if len(w) >= 3 && w[0] == "crypto" && w[1] == "map" {
+			k := cu.ofMap(w[2])
+			if class == "" {
+				class = k
+			} else if class != k {
+				return "other"
+			}
+			continue
+		}
+		if len(w) >= 2 && (w[0] == "access-list" || (w[0] == "crypto" && w[1] == "ipsec") || (w[0] == "clear" && len(w) > 2 && w[2] == "access-list")) {
+			continue
+		}
+		return "other"
+	}
+	if class == "" {
+		return "other"
+	}
+	return class
+}
+
+// ofViews: the lines in which the two views differ are all `[crypto map interface X]` lines of maps of ONE culprit class.
+func (cu *culprits) ofViews(got, want string) string {
+	in := func(l []string) map[string]bool {
+		m := map[string]bool{}
+		for _, x := range l {
+			m[x] = true
+		}
+		return m
+	}
+	g, w := strings.Split(strings.TrimSpace(got), "\n"), strings.Split(strings.TrimSpace(want), "\n")
+	gm, wm := in(g), in(w)
+	class := ""
+	for _, l := range append(append([]string{}, g...), w...) {
+		if gm[l] && wm[l] {
+			continue
+		}
+		if !strings.HasPrefix(l, "[crypto map interface ") {
+			return "other"
+		}
+		intf := strings.TrimSuffix(strings.Fields(strings.TrimPrefix(l, "[crypto map interface "))[0], "]")
+		k := cu.ofMap(cu.bindOf[intf])
+		if class == "" {
+			class = k
+		} else if class != k {
+			return "other"
+		}
+	}
+	if class == "" {
+		return "other"
+	}
+	return class
+}
+
+// changedHeads: the top-level lines whose block (line with its sub-lines) is not the same in both texts.
+func changedHeads(before, after string) []string {
+	parse := func(t string) map[string]string {
+		m := map[string]string{}
+		cur := ""
+		for _, l := range strings.Split(t, "\n") {
+			if l == "" {
+				continue
+			}
+			if strings.HasPrefix(l, " ") {
+				m[cur] += "\n" + l
+			} else {
+				cur = l
+				m[cur] += "\n"
+			}
+		}
+		return m
+	}
+	b, a := parse(before), parse(after)
+	var out []string
+	for h, t := range b {
+		if a[h] != t {
+			out = append(out, h)
+		}
+	}
+	for h := range a {
+		if _, ok := b[h]; !ok {
+			out = append(out, h)
+		}
+	}
+	sort.Strings(out)
+	return out
+}
+
+// peerlessEntry: some crypto map entry of the configuration has neither `set peer` nor `ipsec-isakmp dynamic`.
+func peerlessEntry(d *vdev) bool {
+	has := map[string]bool{}
+	all := map[string]bool{}
+	for _, x := range d.Blocks {
+		w := x.words()
+		if k, _ := headKind(w); k == "cmap" {
+			e := w[2] + " " + w[3]
+			all[e] = true
+			if a := cryptoAttrKey(w); a == "set peer" || a == "ipsec-isakmp dynamic" {
+				has[e] = true
+			}
+		}
+	}
+	for e := range all {
+		if !has[e] {
+			return true
+		}
+	}
+	return false
+}
+
 // repointedRule: the command (executed in state d, webvpn mode or top level) creates a tunnel-group-map /
 // certificate-group-map rule for a certificate map NAME, while the device holds a rule of the same kind for a
 // certificate map of another name with the same subject-name (the tool matched the two rules by subject-name).
@@ -376,9 +558,31 @@ func run(ctx *Ctx) *Result {
 		wantView := c.spoc.managedView(managed)
 		uSet, shared := unmanagedSet(c.dev, c.spoc, managed)
 		frame0 := unmanagedView(c.dev, uSet, managed)
-		dupPeer := dupPeerInTarget(c.spoc)
-		sharedMap := mapSharedWithUnknownIntf(c.dev, c.spoc, managed)
-		repointed := false
+		cu := &culprits{shared: sharedMapNames(c.dev, c.spoc, managed), dup: dupPeerMaps(c.spoc), bindOf: map[string]string{},
+			devBind: map[string]string{}, tgtBind: map[string]string{}}
+		for i, d := range []*vdev{c.dev, c.spoc} {
+			for _, x := range d.Blocks {
+				if w := x.words(); len(w) == 5 {
+					if k, _ := headKind(w); k == "cbind" {
+						cu.bindOf[w[4]] = w[2]
+						if i == 0 {
+							cu.devBind[w[4]] = w[2]
+						} else {
+							cu.tgtBind[w[4]] = w[2]
+						}
+					}
+				}
+			}
+		}
+		if len(cu.shared) > 0 {
+			res.Count("flag:crypto-map-shared-with-unknown-interface")
+		}
+		if len(cu.dup) > 0 {
+			res.Count("flag:duplicate-peer-in-target")
+		}
+		// what the Lean model of the crypto engine (the unchanged code's mirror) says about this input: "yes" = it predicts that
+		// the run does not converge / is refused / is not stable; "no" = it predicts a clean run; "n/a" = outside its fragment
+		modelPredicts := "n/a"
 		hasLocalUser := false
 		for _, o := range c.dev.kindObjects("user") {
 			if c.dev.localUser(o.name) {
@@ -387,15 +591,7 @@ func run(ctx *Ctx) *Result {
 		}
 		sig := func(pred string, extra ...string) map[string]any {
 			m := map[string]any{"frag": "vpn", "pred": pred}
-			if dupPeer {
-				m["duplicate_peer_in_target"] = true
-			}
-			if sharedMap {
-				m["crypto_map_shared_with_unknown_interface"] = true
-			}
-			if repointed {
-				m["rule_repointed_to_other_certificate_map"] = true
-			}
+			m["model_predicts_failure"] = modelPredicts
 			if hasLocalUser {
 				m["local_user_with_password_on_device"] = true
 			}
@@ -405,6 +601,13 @@ func run(ctx *Ctx) *Result {
 			return m
 		}
 		la := lean.check(c, out)
+		if la != nil {
+			if !la.acc || !la.conv || la.second != "" {
+				modelPredicts = "yes"
+			} else {
+				modelPredicts = "no"
+			}
+		}
 		if prop == "C07" {
 			// aaa-server, ldap attribute-map and interface definitions are the administrator's: no command may define or remove them
 			for i, cmd := range cmds {
@@ -437,9 +640,6 @@ func run(ctx *Ctx) *Result {
 					res.Fail(sig("ignored_line_touched"), fmt.Sprintf("command %d %q in mode of `%s` touches a line the tool does not model\nscript:\n%s", i, cmd, ex.cur.Head, out), c)
 				}
 			}
-			if repointedRule(ex.d, ex.mode, strings.Fields(cmd)) {
-				repointed = true
-			}
 			if err := ex.exec1(cmd); err != nil {
 				if ga != nil && ga.acc && !skipped {
 					res.Disagree("vpn-graph-device", c, "dev.go rejects command "+fmt.Sprint(i)+": "+err.Error(), "NA.Vpn.G.execAll accepts the script")
@@ -447,12 +647,8 @@ func run(ctx *Ctx) *Result {
 				if la != nil && la.acc && !skipped {
 					res.Disagree("vpn-device", c, "dev.go rejects command "+fmt.Sprint(i)+": "+err.Error(), "NA.Vpn.applyAll accepts the script")
 				}
-				if os.Getenv("VPN_DEBUG") != "" && repointed {
-					dbgN++
-					os.WriteFile(fmt.Sprintf("/tmp/b-vpn/rep-%d.txt", dbgN), []byte(fmt.Sprintf("%s\n--SPOC\n%s\n--OUT\n%s\n--ERR %d %s %v", c.Dev, c.Spoc, out, i, cmd, err)), 0644)
-				}
 				if prop == "C08" || prop == "C01" || prop == "C10" {
-					res.Fail(sig("command_rejected_by_strict_device", "reason", reasonOf(err.Error())), fmt.Sprintf("command %d %q: %v\nscript:\n%s", i, cmd, err, out), c)
+					res.Fail(sig("command_rejected_by_strict_device", "reason", reasonOf(err.Error()), "culprit", cu.ofCmds([]string{cmd})), fmt.Sprintf("command %d %q: %v\nscript:\n%s", i, cmd, err, out), c)
 				}
 				if prop == "C07" {
 					// the device refused: nothing changed by this command. An attempt to delete something outside
@@ -500,7 +696,7 @@ func run(ctx *Ctx) *Result {
 				}
 			}
 			if got := final.managedView(managed); got != wantView {
-				res.Fail(sig("not_converged"), "after executing the script the managed part differs from the target:\n"+got+"-- want\n"+wantView+"-- script\n"+out, c)
+				res.Fail(sig("not_converged", "culprit", cu.ofViews(got, wantView)), "after executing the script the managed part differs from the target:\n"+got+"-- want\n"+wantView+"-- script\n"+out, c)
 				return
 			}
 			if lo := final.leftovers(); len(lo) > 0 {
@@ -530,7 +726,7 @@ func run(ctx *Ctx) *Result {
 			if pan2 != "" || st2 != 0 {
 				res.Fail(sig("second_compare_failed", "reason", drcReason(err2)), fmt.Sprintf("second compare: exit %d %s %s", st2, pan2, err2), c)
 			} else if strings.TrimSpace(out2) != "" {
-				res.Fail(sig("second_compare_not_empty"), "second compare reports changes:\n"+out2+"-- first script\n"+out, c)
+				res.Fail(sig("second_compare_not_empty", "culprit", cu.ofCmds(splitScript(out2))), "second compare reports changes:\n"+out2+"-- first script\n"+out, c)
 			}
 			if len(cmds) == 0 && c.dev.managedView(managed) != wantView {
 				res.Fail(sig("unchanged_reported_for_different_device"), "empty script although the device is not equivalent:\n"+c.dev.managedView(managed)+"-- want\n"+wantView, c)
@@ -547,9 +743,30 @@ func run(ctx *Ctx) *Result {
 				}
 			}
 			if got := unmanagedView(final, uSet, managed); got != frame0 {
-				class := "other"
-				if len(shared) > 0 {
-					class = "object_shared_between_manual_and_managed_objects"
+				// per object: every top-level line whose block differs belongs to an object that is reachable from a manual AND a
+				// managed object, or is an entry of a crypto map shared with an unknown interface
+				class := ""
+				isShared := map[ref]bool{}
+				for _, o := range shared {
+					isShared[o] = true
+				}
+				for _, head := range changedHeads(frame0, got) {
+					k := "other"
+					hb := &block{Head: head}
+					if o, ok := hb.defines(); ok && isShared[o] {
+						k = "object_shared_between_manual_and_managed_objects"
+					}
+					if w := hb.words(); len(w) >= 4 && w[0] == "crypto" && w[1] == "map" && isNum(w[3]) && cu.shared[w[2]] {
+						k = "entries_of_crypto_map_shared_with_unknown_interface"
+					}
+					if class == "" {
+						class = k
+					} else if class != k {
+						class = "other"
+					}
+				}
+				if class == "" {
+					class = "other"
 				}
 				res.Fail(sig("unmanaged_content_changed", "class", class), "unmanaged content differs after the script:\n"+got+"-- before\n"+frame0+"-- script\n"+out, c)
 			}
@@ -584,14 +801,18 @@ func run(ctx *Ctx) *Result {
 					lean.checkCut(st, c.spoc, out2, st2)
 				}
 				if st2 != 0 {
-					res.Fail(sig("resume_state_not_accepted", "reason", drcReason(err2)), where+": drc rejects the intermediate device: "+strings.TrimSpace(err2)+"\n-- script\n"+out, c)
+					culprit := "other"
+					if peerlessEntry(st) {
+						culprit = "crypto_map_entry_without_peer_in_intermediate_state" // computed from the state, not from drc's message
+					}
+					res.Fail(sig("resume_state_not_accepted", "reason", drcReason(err2), "culprit", culprit), where+": drc rejects the intermediate device: "+strings.TrimSpace(err2)+"\n-- script\n"+out, c)
 					continue
 				}
 				ex2 := &executor{d: st.clone()}
 				bad := false
 				for i, cmd := range splitScript(out2) {
 					if err := ex2.exec1(cmd); err != nil {
-						res.Fail(sig("resume_command_rejected", "reason", reasonOf(err.Error())), fmt.Sprintf("%s: second script command %d %q: %v\n-- first script\n%s-- second script\n%s", where, i, cmd, err, out, out2), c)
+						res.Fail(sig("resume_command_rejected", "reason", reasonOf(err.Error()), "culprit", cu.ofCmds([]string{cmd})), fmt.Sprintf("%s: second script command %d %q: %v\n-- first script\n%s-- second script\n%s", where, i, cmd, err, out, out2), c)
 						bad = true
 						break
 					}
@@ -600,13 +821,13 @@ func run(ctx *Ctx) *Result {
 					continue
 				}
 				if got := ex2.d.managedView(managed); got != wantView {
-					res.Fail(sig("resume_not_converged"), fmt.Sprintf("%s: second run ends in\n%s-- want\n%s-- first script\n%s-- second script\n%s", where, got, wantView, out, out2), c)
+					res.Fail(sig("resume_not_converged", "culprit", cu.ofViews(got, wantView)), fmt.Sprintf("%s: second run ends in\n%s-- want\n%s-- first script\n%s-- second script\n%s", where, got, wantView, out, out2), c)
 					continue
 				}
 				if k%3 == 0 {
 					out3, _, st3, _ := runDrc(ex2.d.print(), c.Spoc)
 					if st3 != 0 || strings.TrimSpace(out3) != "" {
-						res.Fail(sig("resume_further_compare_not_empty"), fmt.Sprintf("%s: a further compare after the second run reports\n%s", where, out3), c)
+						res.Fail(sig("resume_further_compare_not_empty", "culprit", cu.ofCmds(splitScript(out3))), fmt.Sprintf("%s: a further compare after the second run reports\n%s", where, out3), c)
 					}
 				}
 			}
